@@ -16,10 +16,11 @@ def correspondence(ctx):
     corr = Corr()
     # (a) structural
     sizes = sh([HARNESS, 'sizes']).stdout.strip().splitlines()
+    size_hits = []
     for l in sizes:
         corr.count(l.replace(' ', '_'))
         if not l.endswith(' 0'):
-            corr.spec_violations.append(('sizes', l, 'VIOLATED:a profile or class type carries data: results could depend on instance state'))
+            size_hits.append(f'{l} :: a profile or class type carries data: results could depend on instance state; the model assumes a data-free value')
     hits = []
     for crate in ('precis-core', 'precis-profiles'):
         for root, _, files in os.walk(os.path.join(REPO, crate, 'src')):
@@ -31,8 +32,8 @@ def correspondence(ctx):
                             if MUTABLE.search(code):
                                 hits.append(f'{crate}/src/{fn}:{i}: {line.strip()}')
     corr.count('interior_mutability_hits', len(hits))
-    for h in hits:
-        corr.spec_violations.append(('source-scan', h, 'VIOLATED:mutable shared state in library source: results may depend on history or threads (review; the abstract model assumes none)'))
+    # not a failing input by itself: reported (after the behavioural search below) as a broken assumption of the model
+    corr.structural = size_hits + [f'{h} :: mutable shared state or unsafe code in library source: results may depend on history or threads; the abstract model (pure operations on a data-free profile value) assumes none' for h in hits]
     # (b) API forms x instance kinds x history: same input through every combination, interleaved with other calls
     inputs = [[0x47, 0x75, 0x79], [0x20, 0x46, 0x6F, 0x6F, 0x20, 0x20, 0x42], [0xFF21, 0x212B], [0x5D0, 0x5B0, 0x5D1], [0xA8], [0x1F88], [0x13A0], [], [0x20], [0x61, 0xAD],
               [0x200D], [0x94D, 0x200D], [0xE9, 0x20], [0x65E5, 0x672C, 0x3000], [0xFDFA, 0x61]]
@@ -68,6 +69,27 @@ def correspondence(ctx):
         for prof in ('um', 'up', 'op', 'nick'):
             cases.append(f'prof|{prof}|prepare|*|*|{hexs(s)}|')
             cases.append(f'prof|{prof}|compare|*|*|{hexs(s)}|{hexs(bulk[(len(s) * 31) % len(bulk)])}')
+    # (b3) history probes: a cache keyed by less than the whole argument (length, a hash of some bytes, a prefix) makes a
+    # call depend on an EARLIER call with a similar argument.  For labels of many lengths: call with s, then at once with a
+    # variant differing from s in exactly one position (every position for short labels, a sample for long ones), through
+    # the static API and through a fresh instance; the run is one process, so the history is real.
+    lens = sorted(set([3, 8, 16, 31, 32, 33, 38, 64, 100, 257] + [n + d for n in getattr(ctx, 'extra_nums', []) if 2 <= n <= 600 for d in (-1, 0, 1, 6)]))
+    nprobe = 0
+    for L in lens[:14 if ctx.tier == 'quick' else 60]:
+        base = [0x61 + (i * 7) % 26 for i in range(L)]
+        positions = list(range(L)) if L <= 40 else sorted(set(ctx.rng.sample(range(L), 24) + [0, 1, L - 2, L - 1]))
+        for prof in ('nick', 'um', 'op') if ctx.tier != 'quick' else ('nick', 'um'):
+            for pos in positions:
+                var = list(base)
+                var[pos] = 0x7A if var[pos] != 0x7A else 0x79
+                for how in ('s', 'f'):
+                    cases.append(f'prof|{prof}|compare|{how}|b|{hexs(base)}|{hexs([0x78])}')
+                    cases.append(f'prof|{prof}|compare|{how}|b|{hexs(var)}|{hexs(base)}')
+                    cases.append(f'prof|{prof}|compare|{how}|b|{hexs(base)}|{hexs(var)}')
+                    cases.append(f'prof|{prof}|enforce|{how}|b|{hexs(base)}|')
+                    cases.append(f'prof|{prof}|enforce|{how}|b|{hexs(var)}|')
+                    nprobe += 1
+    corr.count('history_probes', nprobe)
     corr.count('inputs_through_all_12_forms', ncomb)
     res = run_cases(cases, ctx.work)
     known = known_bidi(ctx)
